@@ -322,28 +322,73 @@ func runC02(c *Ctx) {
 			c.Check(okLen, "R2.3", "the copy has exactly the received length", rpc.Pos(), "n = copy(buf2, buf); RewritePacket(codec, buf2[:n], ...)", "the rewritten slice is not exactly the received bytes")
 			c.Check(okSame, "R2.3", "the rewritten slice is what is written out", wrc.Pos(), "down.write(buf2[:n]) with the same slice", "a different slice (other length) is written out")
 		}
-		// setMarker
+		// setMarker: the value handed to the rewriter as "set the marker", wherever it is
+		// computed, is true only with flags.Sid == <selection>.sid, flags.End and !flags.Marker
 		okMarker := false
+		var markerCalls []*ast.CallExpr
 		ast.Inspect(wr.Body(), func(n ast.Node) bool {
-			as, ok := n.(*ast.AssignStmt)
-			if !ok || len(as.Lhs) != 1 {
-				return true
+			if call, ok := n.(*ast.CallExpr); ok && len(call.Args) == 5 && fnIs(calleeOf(&CallSite{Call: call, In: wr}), "codecs", "", "RewritePacket") {
+				markerCalls = append(markerCalls, call)
 			}
-			if id, ok := as.Lhs[0].(*ast.Ident); !ok || id.Name != "setMarker" {
-				return true
-			}
-			cj := conjuncts(as.Rhs[0])
-			var parts []string
-			for _, e := range cj {
-				parts = append(parts, types.ExprString(e))
-			}
-			got := map[string]bool{}
-			for _, s := range parts {
-				got[s] = true
-			}
-			okMarker = len(cj) == 3 && got["flags.Sid == layer.sid"] && got["flags.End"] && got["!flags.Marker"]
 			return true
 		})
+		for _, mc := range markerCalls {
+			okMarker = true
+			arg := unparen(mc.Args[2])
+			at := ast.Node(mc)
+			var rhs ast.Expr = arg
+			if id, ok := arg.(*ast.Ident); ok {
+				// a local: its single definition
+				obj := info.ObjectOf(id)
+				ndef := 0
+				ast.Inspect(wr.Body(), func(n ast.Node) bool {
+					if as, ok := n.(*ast.AssignStmt); ok && len(as.Lhs) == len(as.Rhs) {
+						for i, l := range as.Lhs {
+							if lid, ok := l.(*ast.Ident); ok && info.ObjectOf(lid) == obj {
+								ndef++
+								rhs, at = as.Rhs[i], as
+							}
+						}
+					}
+					return true
+				})
+				if ndef != 1 {
+					okMarker = false
+					continue
+				}
+			}
+			st, _ := ff.At(at)
+			if st == nil {
+				okMarker = false
+				continue
+			}
+			st = ff.assume(st, rhs, true)
+			end, notMarked, sameSid := false, false, false
+			for _, f := range st.Facts() {
+				if f.A == nil {
+					continue
+				}
+				isFlagField := func(t *Term, name string) bool {
+					return t != nil && t.K == 'f' && t.Obj != nil && t.Obj.Name() == name && t.Obj.Pkg() != nil && t.Obj.Pkg().Name() == "codecs"
+				}
+				if f.Op == "true" && f.Pos && isFlagField(f.A, "End") {
+					end = true
+				}
+				if f.Op == "true" && !f.Pos && isFlagField(f.A, "Marker") {
+					notMarked = true
+				}
+				if f.Op == "eq" && f.Pos && f.B != nil {
+					for _, pr := range [][2]*Term{{f.A, f.B}, {f.B, f.A}} {
+						if isFlagField(pr[0], "Sid") && pr[1].K == 'f' && pr[1].Obj != nil && pr[1].Obj.Name() == "sid" && pr[1].Obj.Pkg() == wr.Pkg.Types {
+							sameSid = true
+						}
+					}
+				}
+			}
+			if !(end && notMarked && sameSid) {
+				okMarker = false
+			}
+		}
 		c.Check(okMarker, "R2.4", "marker only at the end of a frame of the selected spatial layer", wr.Pos(), "setMarker = flags.Sid == layer.sid && flags.End && !flags.Marker", "the marker can be set on a packet that is not the last of a frame of the forwarded spatial layer")
 	}
 }
